@@ -6,7 +6,14 @@
 //   - ConfigDefault.Expiration (seconds), .CacheHeader, .Methods (middleware/cache/config.go)
 //   - two data-flow facts about the handler in cache.go New():
 //       getUnderLock    : the first `manager.get(` call comes after the first `mux.Lock()` call
-//       removeChecksKey : the call `heap.remove(` passes two arguments (index and key)
+//       removeChecksKey : heap.go `remove` takes index and key, and every `heap.remove(` call in cache.go
+//                         (there may be none: the handler removes by key) passes both
+//       storeDropsTracked : cache.go calls `heap.removeKey(` at least twice, the last time inside the second
+//                         critical section before `heap.put(` (a key is never tracked twice)
+//       getFaultsAreMisses : manager.go `get` blanks the item (`*it = item{}`) when `UnmarshalMsg` fails, and the hit
+//                         condition in cache.go calls `manager.loadBody(` (no unchecked `manager.getRaw(` left)
+//       keyMapMaintained : heap.go: `removeInternal` deletes the removed entry's key from `h.keys`, `put`
+//                         assigns `h.keys[key]`, `removeKey` looks the index up in `h.keys` and calls `h.remove`
 //
 // Standard library only.
 package main
@@ -210,6 +217,7 @@ func main() {
 
 	// data-flow facts in the handler
 	firstLock, firstGet, removeArgs := token.NoPos, token.NoPos, -1
+	secondLock, lastRemoveKey, firstPut, removeKeyCalls := token.NoPos, token.NoPos, token.NoPos, 0
 	ast.Inspect(f, func(n ast.Node) bool {
 		ce, ok := n.(*ast.CallExpr)
 		if !ok {
@@ -226,10 +234,19 @@ func main() {
 		switch {
 		case recv.Name == "mux" && se.Sel.Name == "Lock" && firstLock == token.NoPos:
 			firstLock = ce.Pos()
+		case recv.Name == "mux" && se.Sel.Name == "Lock" && secondLock == token.NoPos:
+			secondLock = ce.Pos()
+		case recv.Name == "heap" && se.Sel.Name == "removeKey":
+			removeKeyCalls++
+			lastRemoveKey = ce.Pos()
+		case recv.Name == "heap" && se.Sel.Name == "put" && firstPut == token.NoPos:
+			firstPut = ce.Pos()
 		case recv.Name == "manager" && se.Sel.Name == "get" && firstGet == token.NoPos:
 			firstGet = ce.Pos()
 		case recv.Name == "heap" && se.Sel.Name == "remove":
-			removeArgs = len(ce.Args)
+			if removeArgs == -1 || len(ce.Args) < removeArgs {
+				removeArgs = len(ce.Args)
+			}
 		}
 		return true
 	})
@@ -237,7 +254,136 @@ func main() {
 		die("mux.Lock() / manager.get() not found in cache.go")
 	}
 	getUnderLock := firstLock < firstGet
-	removeChecksKey := removeArgs == 2
+	hp, err := parser.ParseFile(fset, filepath.Join(*repo, "middleware/cache/heap.go"), nil, 0)
+	if err != nil {
+		die("%v", err)
+	}
+	isKeysOf := func(e ast.Expr) bool { // h.keys
+		se, ok := e.(*ast.SelectorExpr)
+		if !ok || se.Sel.Name != "keys" {
+			return false
+		}
+		id, ok := se.X.(*ast.Ident)
+		return ok && id.Name == "h"
+	}
+	removeParams, deletesKey, putSetsKey, removeKeyReads, removeKeyCallsRemove := -1, false, false, false, false
+	for _, d := range hp.Decls {
+		fd, ok := d.(*ast.FuncDecl)
+		if !ok || fd.Recv == nil || fd.Body == nil {
+			continue
+		}
+		switch fd.Name.Name {
+		case "remove":
+			removeParams = fd.Type.Params.NumFields()
+		case "removeInternal":
+			ast.Inspect(fd.Body, func(n ast.Node) bool {
+				if ce, ok := n.(*ast.CallExpr); ok {
+					if id, ok := ce.Fun.(*ast.Ident); ok && id.Name == "delete" && len(ce.Args) == 2 && isKeysOf(ce.Args[0]) {
+						if se, ok := ce.Args[1].(*ast.SelectorExpr); ok && se.Sel.Name == "key" {
+							deletesKey = true
+						}
+					}
+				}
+				return true
+			})
+		case "put":
+			ast.Inspect(fd.Body, func(n ast.Node) bool {
+				if as, ok := n.(*ast.AssignStmt); ok && len(as.Lhs) == 1 && len(as.Rhs) == 1 {
+					if ix, ok := as.Lhs[0].(*ast.IndexExpr); ok && isKeysOf(ix.X) {
+						k, ok1 := ix.Index.(*ast.Ident)
+						v, ok2 := as.Rhs[0].(*ast.Ident)
+						if ok1 && ok2 && k.Name == "key" && v.Name == "idx" {
+							putSetsKey = true
+						}
+					}
+				}
+				return true
+			})
+		case "removeKey":
+			ast.Inspect(fd.Body, func(n ast.Node) bool {
+				switch x := n.(type) {
+				case *ast.IndexExpr:
+					if k, ok := x.Index.(*ast.Ident); ok && isKeysOf(x.X) && k.Name == "key" {
+						removeKeyReads = true
+					}
+				case *ast.CallExpr:
+					if se, ok := x.Fun.(*ast.SelectorExpr); ok && se.Sel.Name == "remove" && len(x.Args) == 2 {
+						removeKeyCallsRemove = true
+					}
+				}
+				return true
+			})
+		}
+	}
+	removeChecksKey := removeParams == 2 && (removeArgs == 2 || removeArgs == -1)
+	storeDropsTracked := removeKeyCalls >= 2 && secondLock != token.NoPos && firstPut != token.NoPos &&
+		secondLock < lastRemoveKey && lastRemoveKey < firstPut
+	keyMapMaintained := deletesKey && putSetsKey && removeKeyReads && removeKeyCallsRemove
+
+	mg, err := parser.ParseFile(fset, filepath.Join(*repo, "middleware/cache/manager.go"), nil, 0)
+	if err != nil {
+		die("%v", err)
+	}
+	blanksItem := false
+	for _, d := range mg.Decls {
+		fd, ok := d.(*ast.FuncDecl)
+		if !ok || fd.Body == nil || fd.Name.Name != "get" {
+			continue
+		}
+		ast.Inspect(fd.Body, func(n ast.Node) bool {
+			ifs, ok := n.(*ast.IfStmt)
+			if !ok || ifs.Init == nil {
+				return true
+			}
+			callsUnmarshal := false
+			ast.Inspect(ifs.Init, func(m ast.Node) bool {
+				if se, ok := m.(*ast.SelectorExpr); ok && se.Sel.Name == "UnmarshalMsg" {
+					callsUnmarshal = true
+				}
+				return true
+			})
+			if !callsUnmarshal {
+				return true
+			}
+			ast.Inspect(ifs.Body, func(m ast.Node) bool {
+				if as, ok := m.(*ast.AssignStmt); ok && len(as.Lhs) == 1 && len(as.Rhs) == 1 {
+					st, ok1 := as.Lhs[0].(*ast.StarExpr)
+					cl, ok2 := as.Rhs[0].(*ast.CompositeLit)
+					if ok1 && ok2 && len(cl.Elts) == 0 {
+						if id, ok := st.X.(*ast.Ident); ok && id.Name == "it" {
+							if ty, ok := cl.Type.(*ast.Ident); ok && ty.Name == "item" {
+								blanksItem = true
+							}
+						}
+					}
+				}
+				return true
+			})
+			return true
+		})
+	}
+	loadBodyInCond, getRawCalls := false, 0
+	ast.Inspect(f, func(n ast.Node) bool {
+		switch x := n.(type) {
+		case *ast.IfStmt:
+			ast.Inspect(x.Cond, func(m ast.Node) bool {
+				if ce, ok := m.(*ast.CallExpr); ok {
+					if se, ok := ce.Fun.(*ast.SelectorExpr); ok && se.Sel.Name == "loadBody" {
+						if id, ok := se.X.(*ast.Ident); ok && id.Name == "manager" {
+							loadBodyInCond = true
+						}
+					}
+				}
+				return true
+			})
+		case *ast.CallExpr:
+			if se, ok := x.Fun.(*ast.SelectorExpr); ok && se.Sel.Name == "getRaw" {
+				getRawCalls++
+			}
+		}
+		return true
+	})
+	getFaultsAreMisses := blanksItem && loadBodyInCond && getRawCalls == 0
 
 	// ConfigDefault
 	cf, err := parser.ParseFile(fset, filepath.Join(*repo, "middleware/cache/config.go"), nil, 0)
@@ -296,7 +442,7 @@ func main() {
 
 	var sb strings.Builder
 	sb.WriteString("import FiberModel.Basic\n")
-	sb.WriteString("/- GENERATED by /verif/translator/c14 from /repo/middleware/cache/{cache,config}.go on every check run.\n   Do not edit. -/\n")
+	sb.WriteString("/- GENERATED by /verif/translator/c14 from /repo/middleware/cache/{cache,config,heap,manager}.go on every check run.\n   Do not edit. -/\n")
 	sb.WriteString("namespace C14.Facts\nopen B\n\n")
 	cs := make([]string, len(codes))
 	for i, c := range codes {
@@ -315,6 +461,9 @@ func main() {
 	fmt.Fprintf(&sb, "def defaultMethods : List Bytes := %s\n", leanStrList(defMethods))
 	fmt.Fprintf(&sb, "def getUnderLock : Bool := %v\n", getUnderLock)
 	fmt.Fprintf(&sb, "def removeChecksKey : Bool := %v\n", removeChecksKey)
+	fmt.Fprintf(&sb, "def storeDropsTracked : Bool := %v\n", storeDropsTracked)
+	fmt.Fprintf(&sb, "def keyMapMaintained : Bool := %v\n", keyMapMaintained)
+	fmt.Fprintf(&sb, "def getFaultsAreMisses : Bool := %v\n", getFaultsAreMisses)
 	sb.WriteString("\nend C14.Facts\n")
 	if err := os.MkdirAll(filepath.Dir(*out), 0o755); err != nil {
 		die("%v", err)
